@@ -5,6 +5,7 @@
 import TT.Spec.Formats
 import TT.Lemmas.GramOut
 import TT.Lemmas.WF
+import TT.Props.C16
 namespace TT.Lemmas.Write
 open TT TT.Tree TT.Spec
 
@@ -368,6 +369,375 @@ theorem setFields_edge_eq (t : Tree) :
     (t.setFields fun g => { g with edge := some (t.fields.edge.getD DEFAULT_EDGE) }) =
     (t.setFields fun g => { g with edge := some (g.edge.getD DEFAULT_EDGE) }) := by
   cases t <;> rfl
+
+
+open TT.Lemmas.WF
+
+/-! ### contiguous subtrees -/
+
+/-- the tokens of `x` are a run of consecutive numbers -/
+def Cont (x : Tree) : Prop := yield x = List.range' (leftmost x) x.leafNums.length
+
+theorem gapCount_zero_range : ∀ l : List Nat, l.Pairwise (· < ·) → gapCount l = 0 →
+    l = List.range' ((l.head?).getD 0) l.length
+  | [], _, _ => rfl
+  | [a], _, _ => by simp
+  | a :: b :: r, hs, hg => by
+    have hab : a < b := (List.pairwise_cons.1 hs).1 b (by simp)
+    simp only [gapCount] at hg
+    have h1 : ¬ (a + 1 < b) := by intro h; simp [h] at hg
+    have hb : b = a + 1 := by omega
+    have ih := gapCount_zero_range (b :: r) (List.pairwise_cons.1 hs).2 (by
+      split at hg <;> omega)
+    simp only [List.head?_cons, Option.getD_some, List.length_cons] at ih ⊢
+    rw [List.range'_succ, ← hb, ← ih]
+
+theorem yield_length (x : Tree) : (yield x).length = x.leafNums.length := (yield_perm x).length_eq
+
+theorem cont_of_gap (x : Tree) (hn : x.leafNums.Nodup) (hg : gapDegreeNode x = 0) : Cont x := by
+  unfold Cont
+  cases x with
+  | leaf n f => simp [yield, terminals, leaves, sortBy, insertBy, num, leftmost, leafNums]
+  | node f ks =>
+    have hs := TT.Props.C16.yield_strictInc _ hn
+    have := gapCount_zero_range _ hs hg
+    rw [yield_length] at this
+    exact this
+
+def Tight : Nat → List Tree → Prop
+  | _, [] => True
+  | c, k :: L => leftmost k = c ∧ Tight (c + k.leafNums.length) L
+
+theorem tight_of_perm : ∀ (L : List Tree) (c : Nat), L.Pairwise (fun a b => leftmost a ≤ leftmost b) →
+    (∀ k ∈ L, Cont k ∧ k.leafNums ≠ []) →
+    (L.flatMap leafNums).Perm (List.range' c (L.flatMap leafNums).length) → Tight c L
+  | [], _, _, _, _ => trivial
+  | k :: L, c, hs, hk, hp => by
+    obtain ⟨hck, hne⟩ := hk k (by simp)
+    have hpos : 0 < k.leafNums.length := List.length_pos_iff.2 hne
+    simp only [List.flatMap_cons, List.length_append] at hp
+    -- the first child starts at `c`
+    have h1 : leftmost k = c := by
+      have hc : c ∈ k.leafNums ++ L.flatMap leafNums := hp.symm.subset (by simp; omega)
+      have hge : c ≤ leftmost k := by
+        have : leftmost k ∈ List.range' c (k.leafNums.length + (L.flatMap leafNums).length) :=
+          hp.subset (List.mem_append_left _ (leftmost_mem k hne))
+        simp at this; omega
+      rcases List.mem_append.1 hc with hc | hc
+      · have := leftmost_le k c hc; omega
+      · obtain ⟨k', hk', hc'⟩ := List.mem_flatMap.1 hc
+        have h2 := leftmost_le k' c hc'
+        have h3 := (List.pairwise_cons.1 hs).1 k' hk'
+        omega
+    refine ⟨h1, tight_of_perm L _ (List.pairwise_cons.1 hs).2 (fun k' hk' => hk k' (by simp [hk'])) ?_⟩
+    have hy : k.leafNums.Perm (List.range' c k.leafNums.length) := by
+      have := (yield_perm k).symm
+      rw [hck, h1] at this; exact this
+    rw [← List.range'_append_1] at hp
+    exact (List.perm_append_left_iff _).1 ((List.Perm.append_right _ hy.symm).trans hp)
+
+
+/-! ### the bracket decoder, one step at a time -/
+
+theorem takeWhile_append_stop {α} (p : α → Bool) (a b : List α) (c : α) (ha : ∀ x ∈ a, p x = true) (hc : p c = false) :
+    (a ++ c :: b).takeWhile p = a := by
+  induction a with
+  | nil => simp [hc]
+  | cons x a ih =>
+    simp only [List.cons_append, List.takeWhile_cons, ha x (by simp), if_true]
+    rw [ih (fun y hy => ha y (by simp [hy]))]
+
+def goodLabel (l : Str) : Prop := ∀ c ∈ l, c ≠ '(' ∧ c ≠ ')' ∧ c ≠ ' '
+
+theorem decBrNode_leaf (fuel : Nat) (l w rest : Str) (cnt : Nat) (hl : goodLabel l) (hw : ∀ c ∈ w, c ≠ ')') :
+    decBrNode (fuel + 1) ('(' :: (l ++ ' ' :: (w ++ ')' :: rest))) cnt =
+      some (leaf cnt { label := l, word := some w }, rest, cnt + 1) := by
+  have h1 : (l ++ ' ' :: (w ++ ')' :: rest)).takeWhile (fun c => c != '(' && c != ')' && c != ' ') = l :=
+    takeWhile_append_stop _ _ _ _ (fun x hx => by have := hl x hx; simp [this]) (by decide)
+  have h2 : (w ++ ')' :: rest).takeWhile (fun c => c != ')') = w :=
+    takeWhile_append_stop _ _ _ _ (fun x hx => by have := hw x hx; simp [this]) (by decide)
+  rw [decBrNode, h1]
+  simp only [List.drop_left']
+  simp [h2]
+
+theorem decBrNode_node (fuel : Nat) (l r2 : Str) (cnt : Nat) (hl : goodLabel l) (ks : List Tree) (r' : Str) (cnt' : Nat)
+    (h : decBrKids fuel ('(' :: r2) cnt [] = some (ks, r', cnt')) :
+    decBrNode (fuel + 1) ('(' :: (l ++ '(' :: r2)) cnt = some (node { label := l } ks, r', cnt') := by
+  have h1 : (l ++ '(' :: r2).takeWhile (fun c => c != '(' && c != ')' && c != ' ') = l :=
+    takeWhile_append_stop _ _ _ _ (fun x hx => by have := hl x hx; simp [this]) (by decide)
+  rw [decBrNode, h1]
+  simp [h]
+
+theorem decBrKids_close (fuel : Nat) (r : Str) (cnt : Nat) (acc : List Tree) :
+    decBrKids (fuel + 1) (')' :: r) cnt acc = some (acc.reverse, r, cnt) := by
+  rw [decBrKids]
+
+theorem decBrKids_open (fuel : Nat) (r : Str) (cnt : Nat) (acc : List Tree) (k : Tree) (r' : Str) (cnt' : Nat)
+    (h : decBrNode fuel ('(' :: r) cnt = some (k, r', cnt')) :
+    decBrKids (fuel + 1) ('(' :: r) cnt acc = decBrKids fuel r' cnt' (k :: acc) := by
+  rw [decBrKids, h]
+
+
+/-! ### the bracket writer -/
+
+theorem none_eq : "None".toList = ['N', 'o', 'n', 'e'] := rfl
+
+/-- the text written for a subtree (`[]` when the writer fails) -/
+def strOf (o : OutOpts) (k : Tree) : Str :=
+  match bracketsSub o false k with
+  | .ok s => s
+  | .error _ => []
+
+theorem strOf_ok (o : OutOpts) (k : Tree) (s : Str) (h : bracketsSub o false k = .ok s) : strOf o k = s := by
+  unfold strOf; rw [h]
+
+theorem bracketsKids_ok (o : OutOpts) : ∀ (ks : List Tree) (parts : List (Nat × Str)), bracketsKids o ks = .ok parts →
+    parts = ks.map (fun k => (leftmost k, strOf o k)) ∧ ∀ k ∈ ks, ∃ s, bracketsSub o false k = .ok s
+  | [], parts, h => by
+    rw [bracketsKids] at h; cases h; simp
+  | t :: ts, parts, h => by
+    rw [bracketsKids] at h
+    split at h
+    · rename_i a b ha hb
+      cases h
+      obtain ⟨ih1, ih2⟩ := bracketsKids_ok o ts b hb
+      refine ⟨by simp [strOf_ok o t a ha, ← ih1], ?_⟩
+      intro k hk
+      rcases List.mem_cons.1 hk with rfl | hk
+      · exact ⟨a, ha⟩
+      · exact ih2 k hk
+    · cases h
+    · cases h
+
+theorem bracketsSub_leaf_ok (o : OutOpts) (er : Bool) (n : Nat) (f : Fields) (s : Str)
+    (h : bracketsSub o er (leaf n f) = .ok s) :
+    ∃ l, getLabel o (leaf n (replaceParensFields f)) = .ok l ∧
+      s = '(' :: (l ++ ' ' :: (((replaceParensFields f).word.getD ['N', 'o', 'n', 'e']) ++ [')'])) := by
+  rw [bracketsSub] at h
+  split at h
+  · rename_i l hl
+    cases h
+    exact ⟨l, hl, by simp [none_eq]⟩
+  · cases h
+
+theorem bracketsSub_node_ok (o : OutOpts) (f : Fields) (ks : List Tree) (s : Str) (hne : ks ≠ [])
+    (h : bracketsSub o false (node f ks) = .ok s) :
+    ∃ l parts, getLabel o (node f ks) = .ok l ∧ bracketsKids o ks = .ok parts ∧
+      s = '(' :: (l ++ (((sortBy (·.1) parts).map (·.2)).flatten ++ [')'])) := by
+  rw [bracketsSub] at h
+  have : ks.isEmpty = false := by simpa using hne
+  simp only [this, Bool.false_eq_true, if_false] at h
+  split at h
+  · rename_i l parts hl hp
+    cases h
+    exact ⟨l, parts, hl, hp, by simp⟩
+  · cases h
+  · cases h
+
+theorem getLabel_setEdge (o : OutOpts) (t : Tree) :
+    getLabel o (t.setFields fun f => { f with edge := some (f.edge.getD DEFAULT_EDGE) }) = getLabel o t := by
+  cases t <;> rfl
+
+theorem printedLabel_eq_of_ok (o : OutOpts) (t : Tree) (l : Str) (h : getLabel o t = .ok l) : printedLabel o t = l := by
+  unfold printedLabel; rw [getLabel_setEdge, h]
+
+/-! ### `sortKids`, `carryBrackets` and `leftmost` -/
+
+theorem sortKidsL_eq : ∀ ks : List Tree, sortKidsL ks = ks.map sortKids
+  | [] => rfl
+  | t :: ts => by simp [sortKidsL, sortKidsL_eq ts]
+
+theorem carryBracketsL_eq (o : OutOpts) : ∀ ks : List Tree, carryBracketsL o ks = ks.map (carryBrackets o false)
+  | [] => rfl
+  | t :: ts => by simp [carryBracketsL, carryBracketsL_eq o ts]
+
+theorem sortBy_id_perm (l l' : List Nat) (h : l.Perm l') : sortBy id l = sortBy id l' := by
+  refine List.Perm.eq_of_pairwise (le := fun a b => a ≤ b) ?_ (sortBy_sorted id l) (sortBy_sorted id l')
+    ((sortBy_perm id l).trans (h.trans (sortBy_perm id l').symm))
+  intro a b _ _ h1 h2; exact Nat.le_antisymm h1 h2
+
+theorem leftmost_of_perm (t t' : Tree) (h : t'.leafNums.Perm t.leafNums) : leftmost t' = leftmost t := by
+  simp only [leftmost, Lemmas.Nav.yield_eq, sortBy_id_perm _ _ h]
+
+theorem flatMap_congr' {α β} (f g : α → List β) : ∀ l : List α, (∀ a ∈ l, f a = g a) → l.flatMap f = l.flatMap g
+  | [], _ => rfl
+  | a :: l, h => by
+    simp only [List.flatMap_cons, h a (by simp), flatMap_congr' f g l (fun b hb => h b (by simp [hb]))]
+
+theorem leafNums_carry (o : OutOpts) (r : Bool) (x : Tree) : (carryBrackets o r x).leafNums = x.leafNums := by
+  revert r
+  induction x using tree_ind with
+  | hl n f => intro r; simp [carryBrackets, leafNums_leaf]
+  | hn f ks ih =>
+    intro r
+    rw [carryBrackets, leafNums_node, leafNums_node, carryBracketsL_eq, List.flatMap_map]
+    exact flatMap_congr' _ _ ks (fun k hk => ih k hk false)
+
+theorem leafNums_sortKids (x : Tree) : (sortKids x).leafNums.Perm x.leafNums := by
+  induction x using tree_ind with
+  | hl n f => simp [sortKids]
+  | hn f ks ih =>
+    rw [sortKids, leafNums_node, leafNums_node, sortKidsL_eq]
+    refine (List.Perm.flatMap_right _ (sortBy_perm leftmost _)).trans ?_
+    rw [List.flatMap_map]
+    exact Lemmas.Nav.perm_flatMap_of_forall _ _ ks ih
+
+theorem leftmost_sortKids_carry (o : OutOpts) (k : Tree) : leftmost (sortKids (carryBrackets o false k)) = leftmost k := by
+  apply leftmost_of_perm
+  have := leafNums_sortKids (carryBrackets o false k)
+  rwa [leafNums_carry] at this
+
+mutual
+theorem beq_refl : (t : Tree) → Tree.beq t t = true
+  | .leaf n f => by simp [Tree.beq]
+  | .node f ks => by simp [Tree.beq, beqL_refl ks]
+theorem beqL_refl : (ts : List Tree) → Tree.beqL ts ts = true
+  | [] => by simp [Tree.beqL]
+  | t :: ts => by simp [Tree.beqL, beq_refl t, beqL_refl ts]
+end
+
+
+/-! ### the decoder inverts the writer on continuous trees -/
+
+/-- side conditions on what the bracket writer prints for a node -/
+def LabOK (o : OutOpts) : Tree → Prop
+  | leaf n f => f.word.isSome = true ∧ goodLabel (printedLabel o (leaf n (replaceParensFields f)))
+  | node f ks => goodLabel (printedLabel o (node f ks))
+
+/-- decoding the text of `x` (followed by anything) gives `x` back, numbering tokens from `leftmost x` -/
+def DecOK (o : OutOpts) (x : Tree) : Prop :=
+  ∀ s, bracketsSub o false x = .ok s → (∃ s', s = '(' :: s') ∧ ∀ fuel, s.length ≤ fuel → ∀ rest, ∃ d,
+    decBrNode fuel (s ++ rest) (leftmost x) = some (d, rest, leftmost x + x.leafNums.length) ∧
+    sortKids d = sortKids (carryBrackets o false x)
+
+theorem replaceParens_no_rparen (s : Str) : ∀ c ∈ replaceParens s, c ≠ ')' := by
+  intro c hc e; subst e
+  rw [replaceParens_eq] at hc
+  exact not_mem_replFold ')' _ (brackets_vals ')' (by simp)) s (Or.inr (brackets_keys ')' (by simp))) hc
+
+theorem leftmost_leaf (n : Nat) (f : Fields) : leftmost (leaf n f) = n := by
+  simp [leftmost, yield, terminals, leaves, sortBy, insertBy, num]
+
+theorem decOK_leaf (o : OutOpts) (n : Nat) (f : Fields) (h : LabOK o (leaf n f)) : DecOK o (leaf n f) := by
+  intro s hs
+  obtain ⟨hw, hg⟩ := h
+  obtain ⟨l, hl, rfl⟩ := bracketsSub_leaf_ok o false n f s hs
+  refine ⟨⟨_, rfl⟩, ?_⟩
+  intro fuel hf rest
+  obtain ⟨g, rfl⟩ : ∃ g, fuel = g + 1 := ⟨fuel - 1, by simp at hf; omega⟩
+  rw [printedLabel_eq_of_ok o _ l hl] at hg
+  obtain ⟨w, hw⟩ := Option.isSome_iff_exists.1 hw
+  have hword : (replaceParensFields f).word.getD ['N', 'o', 'n', 'e'] = replaceParens w := by
+    simp [replaceParensFields, hw]
+  refine ⟨leaf n { label := l, word := some (replaceParens w) }, ?_, ?_⟩
+  · rw [hword, leftmost_leaf, leafNums_leaf]
+    have := decBrNode_leaf g l (replaceParens w) rest n hg (fun c hc => (replaceParens_no_rparen w c hc))
+    simpa using this
+  · simp [sortKids, carryBrackets, printedLabel_eq_of_ok o _ l hl, hw]
+
+theorem decKids (o : OutOpts) : ∀ (L : List Tree) (cnt : Nat) (acc : List Tree) (fuel : Nat) (rest : Str),
+    (∀ k ∈ L, DecOK o k ∧ ∃ s, bracketsSub o false k = .ok s) → Tight cnt L →
+    ((L.map (strOf o)).flatten).length + 1 ≤ fuel →
+    ∃ ds, decBrKids fuel ((L.map (strOf o)).flatten ++ ')' :: rest) cnt acc =
+        some (acc.reverse ++ ds, rest, cnt + (L.flatMap leafNums).length) ∧
+      ds.map sortKids = L.map (fun k => sortKids (carryBrackets o false k))
+  | [], cnt, acc, fuel, rest, _, _, hf => by
+    obtain ⟨g, rfl⟩ : ∃ g, fuel = g + 1 := ⟨fuel - 1, by omega⟩
+    exact ⟨[], by simp [decBrKids_close], rfl⟩
+  | k :: L, cnt, acc, fuel, rest, hk, ht, hf => by
+    obtain ⟨hdk, s, hs⟩ := hk k (by simp)
+    obtain ⟨⟨s', hs'⟩, hdec⟩ := hdk s hs
+    obtain ⟨h1, h2⟩ := ht
+    obtain ⟨g, rfl⟩ : ∃ g, fuel = g + 1 := ⟨fuel - 1, by omega⟩
+    simp only [List.map_cons, List.flatten_cons, List.length_append, strOf_ok o k s hs] at hf ⊢
+    have hslen : 0 < s.length := by rw [hs']; simp
+    obtain ⟨d, hd, hsd⟩ := hdec g (by omega) ((L.map (strOf o)).flatten ++ ')' :: rest)
+    rw [h1] at hd
+    obtain ⟨ds, hds, hsds⟩ := decKids o L (cnt + k.leafNums.length) (d :: acc) g rest
+      (fun k' hk' => hk k' (by simp [hk'])) h2 (by omega)
+    refine ⟨d :: ds, ?_, by simp [hsd, hsds]⟩
+    have e : s ++ (L.map (strOf o)).flatten ++ ')' :: rest = '(' :: (s' ++ ((L.map (strOf o)).flatten ++ ')' :: rest)) := by
+      rw [hs']; simp
+    rw [e, decBrKids_open g _ cnt acc d _ _ (by rw [← List.cons_append, ← hs']; exact hd), hds]
+    simp [Nat.add_assoc]
+
+theorem decBrNode_node' (fuel : Nat) (l r : Str) (cnt : Nat) (hl : goodLabel l) (ks : List Tree) (r' : Str) (cnt' : Nat)
+    (hr : ∃ r2, r = '(' :: r2) (h : decBrKids fuel r cnt [] = some (ks, r', cnt')) :
+    decBrNode (fuel + 1) ('(' :: (l ++ r)) cnt = some (node { label := l } ks, r', cnt') := by
+  obtain ⟨r2, rfl⟩ := hr
+  exact decBrNode_node fuel l r2 cnt hl ks r' cnt' h
+
+theorem noEmpty_node_iff (f : Fields) (ks : List Tree) :
+    (node f ks).noEmpty = true ↔ ks ≠ [] ∧ ∀ k ∈ ks, k.noEmpty = true := by
+  rw [noEmpty, Bool.and_eq_true, noEmptyL_iff]; simp
+
+theorem decOK_node (o : OutOpts) (f : Fields) (ks : List Tree) (ih : ∀ k ∈ ks, DecOK o k)
+    (hne : ks ≠ []) (hkne : ∀ k ∈ ks, k.leafNums ≠ []) (hcx : Cont (node f ks)) (hck : ∀ k ∈ ks, Cont k)
+    (hlab : LabOK o (node f ks)) : DecOK o (node f ks) := by
+  intro s hs
+  obtain ⟨l, parts, hl, hp, rfl⟩ := bracketsSub_node_ok o f ks s hne hs
+  obtain ⟨hparts, hsub⟩ := bracketsKids_ok o ks parts hp
+  refine ⟨⟨_, rfl⟩, ?_⟩
+  intro fuel hf rest
+  have hpl := printedLabel_eq_of_ok o _ l hl
+  have hgl : goodLabel l := by rw [← hpl]; exact hlab
+  -- the text of the children, in the order of their leftmost tokens
+  have hT : ((sortBy (·.1) parts).map (·.2)).flatten = (((sortBy leftmost ks).map (strOf o)).flatten) := by
+    rw [hparts, sortBy_map_keyed]
+  rw [hT] at hf ⊢
+  have hmem : ∀ k, k ∈ sortBy leftmost ks ↔ k ∈ ks := fun k => mem_sortBy leftmost ks k
+  have hperm : ((sortBy leftmost ks).flatMap leafNums).Perm (node f ks).leafNums := by
+    rw [leafNums_node]; exact List.Perm.flatMap_right _ (sortBy_perm leftmost ks)
+  have htight : Tight (leftmost (node f ks)) (sortBy leftmost ks) := by
+    refine tight_of_perm _ _ (sortBy_sorted leftmost ks) (fun k hk => ⟨hck k ((hmem k).1 hk), hkne k ((hmem k).1 hk)⟩) ?_
+    rw [hperm.length_eq, ← hcx]
+    exact hperm.trans (yield_perm _).symm
+  obtain ⟨g, rfl⟩ : ∃ g, fuel = g + 1 := ⟨fuel - 1, by simp at hf; omega⟩
+  obtain ⟨ds, hds, hsds⟩ := decKids o (sortBy leftmost ks) (leftmost (node f ks)) [] g rest
+    (fun k hk => ⟨ih k ((hmem k).1 hk), hsub k ((hmem k).1 hk)⟩) htight
+    (by simp only [List.length_cons, List.length_append, List.length_nil] at hf; omega)
+  -- the first child's text starts with "("
+  have hstart : ∃ r2, ((sortBy leftmost ks).map (strOf o)).flatten ++ ')' :: rest = '(' :: r2 := by
+    cases hL : sortBy leftmost ks with
+    | nil =>
+      have := sortBy_length leftmost ks
+      rw [hL] at this
+      exact absurd (List.eq_nil_of_length_eq_zero this.symm) hne
+    | cons k0 L0 =>
+      have hk0 : k0 ∈ ks := (hmem k0).1 (by rw [hL]; simp)
+      obtain ⟨s0, hs0⟩ := hsub k0 hk0
+      obtain ⟨⟨s0', hs0'⟩, _⟩ := ih k0 hk0 s0 hs0
+      exact ⟨s0' ++ ((L0.map (strOf o)).flatten ++ ')' :: rest), by simp [strOf_ok o k0 s0 hs0, hs0']⟩
+  refine ⟨node { label := l } ds, ?_, ?_⟩
+  · have e : '(' :: (l ++ (((sortBy leftmost ks).map (strOf o)).flatten ++ [')'])) ++ rest =
+        '(' :: (l ++ (((sortBy leftmost ks).map (strOf o)).flatten ++ ')' :: rest)) := by simp
+    rw [e, decBrNode_node' g l _ _ hgl ds rest _ hstart hds, hperm.length_eq]
+  · have hkey : ∀ a : Tree, leftmost ((fun k => sortKids (carryBrackets o false k)) a) = leftmost a :=
+      fun a => leftmost_sortKids_carry o a
+    rw [sortKids, sortKidsL_eq, hsds, sortBy_map leftmost leftmost _ hkey,
+      sortBy_of_sorted leftmost _ (sortBy_sorted leftmost ks)]
+    rw [carryBrackets, sortKids, sortKidsL_eq, carryBracketsL_eq, List.map_map]
+    rw [show (sortKids ∘ carryBrackets o false) = (fun k => sortKids (carryBrackets o false k)) from rfl,
+      sortBy_map leftmost leftmost _ hkey]
+    simp [hpl]
+
+/-- hereditary hypotheses of the round trip -/
+theorem decOK (o : OutOpts) (x : Tree) : x.noEmpty = true → x.leafNums.Nodup →
+    (∀ y ∈ subtrees x, gapDegreeNode y = 0) → (∀ y ∈ subtrees x, LabOK o y) → DecOK o x := by
+  induction x using tree_ind with
+  | hl n f => intro _ _ _ hlab; exact decOK_leaf o n f (hlab _ (self_mem_subtrees _))
+  | hn f ks ih =>
+    intro hne hnd hgap hlab
+    obtain ⟨hks, hkne⟩ := (noEmpty_node_iff f ks).1 hne
+    have hsubk : ∀ k ∈ ks, ∀ y ∈ subtrees k, y ∈ subtrees (node f ks) :=
+      fun k hk y hy => (mem_subtrees_node f ks y).2 (Or.inr ⟨k, hk, hy⟩)
+    have hndk : ∀ k ∈ ks, k.leafNums.Nodup := fun k hk => (leafNums_sublist_of_mem f ks k hk).nodup hnd
+    refine decOK_node o f ks ?_ hks (fun k hk => noEmpty_leafNums_ne_nil k (hkne k hk)) ?_ ?_ (hlab _ (self_mem_subtrees _))
+    · intro k hk
+      exact ih k hk (hkne k hk) (hndk k hk) (fun y hy => hgap y (hsubk k hk y hy)) (fun y hy => hlab y (hsubk k hk y hy))
+    · exact cont_of_gap _ hnd (hgap _ (self_mem_subtrees _))
+    · intro k hk
+      exact cont_of_gap _ (hndk k hk) (hgap k (hsubk k hk k (self_mem_subtrees k)))
 
 
 end TT.Lemmas.Write
